@@ -1,6 +1,8 @@
 package generator
 
 import (
+	"bytes"
+	"encoding/json"
 	"fmt"
 	"github.com/aml-org/amf-custom-validator/internal/misc"
 	"github.com/aml-org/amf-custom-validator/internal/parser/profile"
@@ -85,7 +87,16 @@ func packageName(profile profile.Profile) string {
 }
 
 func profileName(profile profile.Profile) string {
-	return fmt.Sprintf("report[\"profile\"] = \"%s\"", profile.Name)
+	return fmt.Sprintf("report[\"profile\"] = %s", regoString(profile.Name))
+}
+
+// regoString renders s as a Rego string literal (JSON syntax), quotes included
+func regoString(s string) string {
+	var b bytes.Buffer
+	enc := json.NewEncoder(&b)
+	enc.SetEscapeHTML(false)
+	_ = enc.Encode(s)
+	return strings.TrimSuffix(b.String(), "\n")
 }
 
 func entrypoint(profile profile.Profile) string {
